@@ -353,8 +353,13 @@ class History:
         m = c['m']
         ret = ref_inst.subst_ret(m.ret, c['env'], c.get('this_t'))
         nout = 2 if ret.k == 'Pair' else (0 if (ret.name == 'void' and not ret.ns and not ret.args) else 1)
-        if role == 'static':
-            nout = 1      # the static emitter always assigns varargout{1}
+        lhs = c['branch'].get('lhs')
+        if lhs is not None:
+            # the .m file decides how many outputs are requested from the gateway
+            asked = lhs.count('varargout{')
+            if asked != nout:
+                self.P.problems.append('%s: the .m file requests %d outputs, the declared return type has %d' % (c['entity'], asked, nout))
+                return False
         outs = []
         halves = [ret.first, ret.second] if ret.k == 'Pair' else ([ret] if nout else [])
         for h in halves:
